@@ -30,6 +30,13 @@ TRUSTED_BASE = [
 ]
 
 
+MAX_VIOLATIONS = 8
+
+
+class TooManyViolations(Exception):
+    """Enough violations were reported; stop exploring."""
+
+
 class MachineryError(Exception):
     """The verification machinery itself is broken (exit 2, never a VIOLATION)."""
 
@@ -191,6 +198,8 @@ class Run:
             line += " no-failing-input-found"
         print(line, flush=True)
         self.violations.append({"tag": tag, "detail": detail[:500], "replay": path})
+        if len(self.violations) >= MAX_VIOLATIONS:
+            raise TooManyViolations()
 
     # -- finish -----------------------------------------------------------------------------
     def finish(self, proof: dict) -> int:
